@@ -2,6 +2,8 @@
 package main
 
 import (
+	"bytes"
+	"sort"
 	"sync"
 	"sync/atomic"
 
@@ -12,6 +14,7 @@ import (
 	"verif/ref/refchain"
 
 	"github.com/btcsuite/btcd/btcutil/v2"
+	"github.com/btcsuite/btcd/chainhash/v2"
 	"github.com/btcsuite/btcd/mempool"
 	"github.com/btcsuite/btcd/wire/v2"
 )
@@ -108,6 +111,49 @@ func oneOp(ps *poolsim.PS, r *mon.Rand, allowChainOps bool) {
 		if r.Chance(1, 4) {
 			if extra := ps.Coins(v, r.Bool()); len(extra) > 0 {
 				in = append(in, extra[r.Intn(len(extra))])
+			}
+		} else if r.Chance(1, 3) {
+			// the replacement also spends a still unspent output of a transaction it would evict (the victim itself or
+			// one of its pooled descendants), and pays enough to pass every fee rule: it must be refused, since its own
+			// input would disappear with the eviction
+			evict := map[chainhash.Hash]bool{*victim.Tx.Hash(): true}
+			spent := map[wire.OutPoint]bool{}
+			for changed := true; changed; {
+				changed = false
+				for h, d := range v.Descs {
+					for _, ti := range d.Tx.MsgTx().TxIn {
+						spent[ti.PreviousOutPoint] = true
+						if evict[ti.PreviousOutPoint.Hash] && !evict[h] {
+							evict[h], changed = true, true
+						}
+					}
+				}
+			}
+			var cands []chaingen.Spendable
+			var fees int64
+			for h := range evict {
+				d := v.Descs[h]
+				fees += d.Fee
+				for i, to := range d.Tx.MsgTx().TxOut {
+					op := wire.OutPoint{Hash: h, Index: uint32(i)}
+					if !spent[op] && to.Value > 0 && ps.G.CanSpend(to.PkScript) {
+						cands = append(cands, chaingen.Spendable{Op: op, Coin: refchain.Coin{Amount: to.Value, PkScript: to.PkScript}})
+					}
+				}
+			}
+			if len(cands) > 0 {
+				sort.Slice(cands, func(i, j int) bool {
+					if c := bytes.Compare(cands[i].Op.Hash[:], cands[j].Op.Hash[:]); c != 0 {
+						return c < 0
+					}
+					return cands[i].Op.Index < cands[j].Op.Index
+				})
+				in = append(in, cands[r.Intn(len(cands))])
+				f = fees + int64(20000+r.Intn(60000))
+				ps.K.Count("conflict.attempts.spending-an-output-of-an-evicted-transaction", 1)
+				if len(evict) > 1 {
+					ps.K.Count("conflict.attempts.spending-an-output-of-an-evicted-descendant-set", 1)
+				}
 			}
 		}
 		tx := ps.Build(poolsim.TxSpec{In: in, Fee: f, NOut: 1 + r.Intn(2), Signal: r.Bool(), Pad: r.Intn(30)})
@@ -548,6 +594,7 @@ func main() {
 		c.Require("check.invariants", 5000)
 		c.Require("check.minable", 1000)
 		c.Require("replacement.accepted", 20)
+		c.Require("conflict.attempts.spending-an-output-of-an-evicted-descendant-set", 30)
 		c.Require("submit.orphans_promoted", 10)
 		c.Require("orphan.boundary.within", 10)
 		c.Require("bad.sigop-cost-above-block-limit", 10)
